@@ -94,12 +94,23 @@ def cnode_of(x):
         op = BIN.get(type(x).__name__)
         if op is None:
             raise Unmodelled(type(x).__name__)
-        return dict(_meta(x), k="arith", op=op, ln=str(x._left_name), rn=str(x._right_name), l=cnode_of(x._left), r=cnode_of(x._right))
+        # operand names: the public attribute names in `__dict__` order (one name if both operands got the same)
+        names = [str(k) for k in x.__dict__ if not _private(str(k))]
+        if len(names) == 2:
+            ln, rn = names
+        elif len(names) == 1:
+            ln = rn = names[0]
+        else:
+            raise Unmodelled("compound prior with %d public attributes" % len(names))
+        return dict(_meta(x), k="arith", op=op, ln=ln, rn=rn, l=cnode_of(x.left), r=cnode_of(x.right))
     if isinstance(x, C.ModifiedPrior):
         op = UN.get(type(x).__name__)
         if op is None:
             raise Unmodelled(type(x).__name__)
-        return dict(_meta(x), k="modif", op=op, name=str(x._prior_name), x=cnode_of(x.prior))
+        names = [str(k) for k in x.__dict__ if not _private(str(k))]
+        if len(names) != 1:
+            raise Unmodelled("modified prior with %d public attributes" % len(names))
+        return dict(_meta(x), k="modif", op=op, name=names[0], x=cnode_of(x.prior))
     if isinstance(x, Array):
         if type(x) is not Array:
             raise Unmodelled(type(x).__name__)
